@@ -611,7 +611,8 @@ fn for_each_filter(e: &mut EdgeSel, f: &mut dyn FnMut(&mut Filter)) {
     }
 }
 
-pub const POINT_MUTATIONS: [&str; 14] = [
+pub const POINT_MUTATIONS: [&str; 15] = [
+    "count_tag_used_by_earlier_vertex",
     "tag_operand_undefined",
     "filter_op_replaced",
     "property_renamed_to_unknown",
@@ -638,6 +639,37 @@ fn mutate_query(c: &mut Choices<'_>, schema: &SchemaDoc, q: &mut Query) -> Vec<&
         let mut count = 0usize;
         let mut done = false;
         match label {
+            "count_tag_used_by_earlier_vertex" => {
+                // well-typed on purpose (an Int property of the fold's own parent vertex compared with the fold's count), so
+                // that the ordering rule is the only thing that can reject the query
+                use crate::checks::meta::{anode_at, edge_at, edge_at_mut, edge_paths};
+                let ann = crate::query_ast::annotate(schema, q);
+                let folds: Vec<Vec<usize>> = edge_paths(q).into_iter().filter(|p| !p.is_empty() && edge_at(q, p).fold).collect();
+                if folds.is_empty() {
+                    continue;
+                }
+                let path = folds[(pick * folds.len()) >> 6].clone();
+                let parent = &path[..path.len() - 1];
+                let parent_ty = anode_at(&ann.root, q, parent).ty.clone();
+                let int_props: Vec<String> = schema
+                    .properties(&parent_ty)
+                    .into_iter()
+                    .filter(|p| p.ty.base == "Int" && !p.ty.is_list())
+                    .map(|p| p.name.clone())
+                    .collect();
+                if int_props.is_empty() {
+                    continue;
+                }
+                let prop = int_props[aux % int_props.len()].clone();
+                let tag = "early_count".to_string();
+                edge_at_mut(q, &path).count.get_or_insert_with(Default::default).tags.push(tag.clone());
+                let op = [crate::values::Op::Eq, crate::values::Op::Ne, crate::values::Op::Lt, crate::values::Op::Ge][aux % 4];
+                edge_at_mut(q, parent).body.insert(
+                    0,
+                    Sel::Prop(PropSel { name: prop, filters: vec![Filter { op, arg: Some(Arg::Tag(tag)) }], ..Default::default() }),
+                );
+                done = true;
+            }
             "tag_operand_undefined" | "filter_op_replaced" | "variable_shared_across_types" | "operand_kind_swapped" => {
                 let mut total = 0usize;
                 for_each_filter(&mut q.root, &mut |_| total += 1);
@@ -672,6 +704,13 @@ fn mutate_query(c: &mut Choices<'_>, schema: &SchemaDoc, q: &mut Query) -> Vec<&
                 let mut total = 0usize;
                 let mut first_output: Option<String> = None;
                 let mut last_tag: Option<String> = None;
+                // fold-count tags as well (half of the time they win): a count tag used by a filter on an earlier vertex
+                let mut count_tag: Option<String> = None;
+                for_each_edge(&mut q.root, &mut |e| {
+                    if let Some(t) = e.count.as_ref().and_then(|c| c.tags.last()) {
+                        count_tag = Some(t.clone());
+                    }
+                });
                 for_each_prop(&mut q.root, &mut |p| {
                     total += 1;
                     if first_output.is_none() {
@@ -683,6 +722,9 @@ fn mutate_query(c: &mut Choices<'_>, schema: &SchemaDoc, q: &mut Query) -> Vec<&
                 });
                 if total == 0 {
                     continue;
+                }
+                if aux % 2 == 0 && count_tag.is_some() {
+                    last_tag = count_tag.clone();
                 }
                 let target = if label == "filter_added_to_first_property" { 0 } else { (pick * total) >> 6 };
                 for_each_prop(&mut q.root, &mut |p| {
